@@ -406,4 +406,50 @@ example : epanetFires 600 3600 false 1000 1200 ∧ wntrFires 600 false 1000 1200
     omega
   exact ⟨(rule_fire_coincide 600 3600 (by omega) false 1000 1200 (by omega)).mpr hw, hw⟩
 
+/-! ### why EPANET's results depend (slightly) on the unit system: its own flow-unit constants -/
+
+/-- EPANET 2.2's flow-unit constants (`epanet2_2/src/types.h`: GPMperCFS 448.831, MGDperCFS 0.64632, IMGDperCFS 0.5382,
+AFDperCFS 1.9837, LPSperCFS 28.317, LPMperCFS 1699.0, MLDperCFS 2.4466, CMHperCFS 101.94, CMDperCFS 2446.6): file units per cfs,
+indexed by the EN flow-unit id -/
+def epanetPerCfs : Nat → Rat
+  | 0 => 1
+  | 1 => 448831 / 1000
+  | 2 => 64632 / 100000
+  | 3 => 5382 / 10000
+  | 4 => 19837 / 10000
+  | 5 => 28317 / 1000
+  | 6 => 1699
+  | 7 => 24466 / 10000
+  | 8 => 10194 / 100
+  | 9 => 24466 / 10
+  | _ => 1
+
+/-- the exact number of file units per cfs, from the physical definitions of C17 (`flowSpec` = m³/s per file unit) -/
+def exactPerCfs (u : Nat) : Rat := flowSpec 0 / flowSpec u
+
+/-- EPANET's internal flow for a value written in unit `u`, relative to the true one: `exact / epanet` -/
+def epanetFlowBias (u : Nat) : Rat := exactPerCfs u / epanetPerCfs u
+
+/-- **EPANET's unit constants carry about five significant digits**: each is within 1.2e-4 of the physical definition
+(worst: AFD, 1.9837 for 1.98347…) -/
+theorem epanet_unit_constants_precision :
+    (inpUnits.all fun u => decide (|epanetFlowBias u - 1| ≤ 12 / 100000)) = true := by decide +kernel
+
+/-- hence the same SI flow written in two unit systems is seen by EPANET as two flows whose ratio is within 1.6e-4 of 1, and every
+quantity that grows at most quadratically with the flow (Hazen-Williams `q^1.852` lies between `q` and `q²` around 1, minor losses are
+`q²`) differs by at most 3.2e-4 relative: the `4e-4 · (head range)` of the unit-independence comparison in harness/props/c03.py -/
+theorem epanet_unit_pair_bias :
+    (inpUnits.all fun u1 => inpUnits.all fun u2 =>
+      decide (|epanetFlowBias u1 / epanetFlowBias u2 - 1| ≤ 16 / 100000) &&
+      decide (|(epanetFlowBias u1 / epanetFlowBias u2) ^ 2 - 1| ≤ 32 / 100000)) = true := by decide +kernel
+
+/-- the linear deviation is dominated by the quadratic one (`x` = ratio of the two internal flows): with `x^1.852` lying between `x` and
+`x²` this is why the quadratic bound above covers Hazen-Williams head losses -/
+theorem ratio_linear_le_quadratic (x : Rat) (hx : 0 ≤ x) : |x - 1| ≤ |x ^ 2 - 1| := by
+  have h : x ^ 2 - 1 = (x - 1) * (x + 1) := by ring
+  rw [h, abs_mul]
+  have h1 : 1 ≤ |x + 1| := by rw [abs_of_nonneg (by linarith)]; linarith
+  calc |x - 1| = |x - 1| * 1 := by ring
+    _ ≤ |x - 1| * |x + 1| := mul_le_mul_of_nonneg_left h1 (abs_nonneg _)
+
 end Wntr.Engines
